@@ -50,8 +50,8 @@ pub fn tier(name: &str) -> Tier {
             sizes: PoolSizes { gen_per_ev: 600, cross_texts: 110, malformed_per_ev: 60, extreme_per_ev: 100, sibling_families_per_ev: 40, pair_samples_per_ev: 120, all_pairs: false, max_corpus: 300 },
             recheck_every: 0,
             det_seeds: 40,
-            short_runs: 300_000,
-            short_budget_s: 75,
+            short_runs: 500_000,
+            short_budget_s: 150,
             wide_runs: 3_000,
             long_runs: 32,
             long_calls: 8_000,
@@ -65,8 +65,8 @@ pub fn tier(name: &str) -> Tier {
             sizes: PoolSizes { gen_per_ev: 4000, cross_texts: 1200, malformed_per_ev: 600, extreme_per_ev: 500, sibling_families_per_ev: 300, pair_samples_per_ev: 0, all_pairs: true, max_corpus: 2000 },
             recheck_every: 1,
             det_seeds: 5000,
-            short_runs: 2_000_000,
-            short_budget_s: 480,
+            short_runs: 3_000_000,
+            short_budget_s: 900,
             wide_runs: 20_000,
             long_runs: 64,
             long_calls: 100_000,
@@ -1021,7 +1021,7 @@ pub fn check(o: &CheckOpts) -> i32 {
         "coverage": {
             "evaluations": evaluations,
             "distinct_nontrivial": nontrivial.len(),
-            "rule": "evaluations = simulated runs that ended with a verdict (each in its own freshly forked process: a seeded workload of 1-16 caller threads issuing eval_* calls under a seeded scheduler that owns every context switch; every call's outcome compared bit for bit with the same call's isolated first-time outcome). distinct_nontrivial = number of DISTINCT schedule hashes (hash over every context switch: from-thread, to-thread, site, call number, tick) among runs that had at least one pre-emption INSIDE a call (at a tick site) so that two calls overlapped; measured by collecting the hashes in a set. Runs at call granularity only (serial, call_atomic, long-history) are evaluations but are not counted as non-trivial.",
+            "rule": "evaluations = simulated runs that ended with a verdict (each in its own freshly forked process: a seeded workload of 1-16 caller threads issuing eval_* calls under a seeded scheduler that owns every context switch; every call's outcome compared bit for bit with the same call's isolated first-time outcome). distinct_nontrivial = number of DISTINCT schedule hashes (hash over every context switch: from-thread, to-thread, site, call number, tick) among runs that had at least one pre-emption INSIDE a call (at a source tick, a basic-block edge, a memory access of the library crates, or an intercepted futex wait) so that two calls overlapped; measured by collecting the hashes in a set. Runs at call granularity only (serial, call_atomic, long-history) are evaluations but are not counted as non-trivial.",
             "samples": samples,
             "simulated_time": {"calls": calls, "ticks": ticks, "decision_points": steps, "context_switches": switches},
             "runs_per_hour": if wall > 0.0 { (evaluations as f64 / wall * 3600.0).round() } else { 0.0 },
@@ -1062,9 +1062,9 @@ pub fn check(o: &CheckOpts) -> i32 {
             "miri_pass": mo.as_ref().map(|m| m.to_json()).unwrap_or(json!({"ran": false, "reason": "disabled by VERIF_NO_MIRI"})),
             "replay_files": findings.iter().map(|f| json!({"file": f.file, "evaluator": f.class.0, "kind": f.class.1, "known": f.known, "replay_confidence": f.confidence})).collect::<Vec<_>>(),
             "components": {
-                "real": ["string_calculator (all five eval_* stacks and utils, built from /repo's working tree with feature verif_hooks)", "rust_decimal", "num-complex", "std threads / TLS / statics of the real process"],
+                "real": ["string_calculator (all five eval_* stacks and utils, built from /repo's working tree with feature verif_hooks; compiler-inserted SanitizerCoverage callbacks add calls only)", "rust_decimal", "num-complex", "num-traits", "arrayvec", "std threads / TLS / statics / allocator of the real process"],
                 "stubbed": [],
-                "simulated": ["caller threads' scheduling (baton; every switch chosen by the run's PRNG)", "call histories", "thread lifecycle (spawn / retire / respawn)"],
+                "simulated": ["caller threads' scheduling (baton; every switch chosen by the run's PRNG or a recorded switch list)", "call histories", "thread lifecycle (spawn / retire / respawn, exits serialised)", "blocking on library locks (futex waits inside calls become scheduling decisions)", "wall and monotonic clocks inside calls (virtual time with injected jumps)", "the caller's stack depth", "ambient inputs of the oracle (environment, address-space layout, cwd) in the recheck"],
             },
         },
         "assumptions": [
